@@ -26,7 +26,10 @@ where
   ) -> Subscription<'a> {
     let unsub_observer = observer.clone();
     let issub_observer = observer.clone();
-    self.source.call(observer.clone());
+    // a subscription that has already ended subscribes nothing on its behalf
+    if observer.is_subscribed() {
+      self.source.call(observer.clone());
+    }
     Subscription::new(
       move || {
         unsub_observer.unsubscribe();
